@@ -22,7 +22,7 @@ EVIDENCE = dict(
              "CPython: random.randint/choice/uniform contracts, uuid4() is version 4, Decimal(repr(x)) round-trips"],
     rule="hereditarily satisfiable schemas built with a checked witness; each is generated from under draw policies "
          "lo/hi/alt/alt2/rnd/small and one:<k> (single-position extremes); distinct by repr(schema)+policy; non-trivial = at "
-         "least one random draw was consumed")
+         "least one random draw was consumed; thorough tier adds EVERY schema of the small scope (small grammar to depth 2, 5.2k schemas) under four draw policies")
 
 
 def one_policies(n_requests, limit):
@@ -145,6 +145,14 @@ def run(ctx):
         ctx.breakage("correspondence", "generator view (requests, value) differs between model and code",
                      schema=repr(c.schema), policy=c.policy, detail=detail, request=c.req)
     ctx.cov["corr_disagreements"] = len(dis)
+    if not ctx.quick():
+        # thorough: every schema of the small scope under four draw policies
+        from .. import smallscope
+
+        def scope_oracle(ctx, cs):
+            for c in cs:
+                oracle_case(ctx, c.schema, None, c.policy, c.kind, c.value, c.log)
+        smallscope.gen_scope(ctx, oracle=scope_oracle)
     for c in cases[:300:60]:
         ctx.sample({"schema": repr(c.schema), "policy": c.policy, "value": repr(c.value)[:300],
                     "requests": [e[:3] for e in c.log][:12]})
